@@ -1,1 +1,216 @@
-/-! Property theorems for C16 (stub: not built yet). -/
+import UsualProofs.C16.Crc
+import UsualProofs.C16.Sip
+import UsualProofs.C16.L3
+import UsualProofs.C16.XXH
+import UsualProofs.C16.Spk
+import Usual.C16.MemHash
+/-! # C16 — non-cryptographic hashes are pure, bounded and equal the published algorithms
+
+Property theorems about the models in `lean/Usual/C16/` (which mirror
+usual/hashing/{crc32,lookup3,siphash,spooky,xxhash,memhash}.c and are compared with the real code
+by `harness/C16/h.c` on every run).
+
+*Purity* on the model side holds by construction: every model is a Lean function of the byte
+list (and seed/key) only — there is no address, alignment or surrounding memory it could depend
+on.  That the C code behaves like these functions, and reads nothing outside `[data, data+len)`,
+is what the guard-page / ASan differential run observes; it is not a theorem.
+
+`example`s that evaluate a hash on a published test vector are **tests** (kernel-evaluated),
+not proofs of equality with the publication; they are labelled `-- test vector`. -/
+namespace UsualProps.C16
+open Usual.C16
+
+/-! ## CRC-32 -/
+
+/-- Every entry of `crc_tab[]` as it stands in crc32.c today (regenerated into
+`Usual.Gen.C16Crc` on every run) is the bit-level remainder of its index: eight steps of the
+reflected division by 0xEDB88320, i.e. feeding the single byte `i` into a zero register. -/
+theorem crc_table_ok :
+    ∀ i : Fin 256, Usual.Gen.C16Crc.crcTab.getD i.val 0 = Crc32.bitwiseByte 0 (UInt8.ofNat i.val) := by
+  intro i
+  have h := UsualProofs.C16.Crc.tab_ok i
+  unfold Crc32.tab at h
+  rw [h]
+  unfold Crc32.bitwiseByte
+  have e : (0 : UInt32) ^^^ (UInt8.ofNat i.val).toUInt32 = UInt32.ofNat i.val := by
+    apply UInt32.toNat_inj.mp
+    have := i.isLt
+    simp
+    omega
+  rw [e]
+example : Usual.Gen.C16Crc.crcTab.getD 128 0 = 0xEDB88320 := by decide +kernel   -- the polynomial itself
+example : Usual.Gen.C16Crc.crcTab.size = 256 := by decide +kernel
+
+/-- The table-driven `calc_crc32` equals the bit-at-a-time definition of CRC-32/ISO-HDLC for
+every byte string and every start value. -/
+theorem crc_eq_bitwise (data : List UInt8) (init : UInt32) :
+    Crc32.calcCrc32 data init = Crc32.crc32Bitwise data init := by
+  unfold Crc32.calcCrc32 Crc32.crc32Bitwise
+  rw [UsualProofs.C16.Crc.foldl_step_eq]
+-- test vector: the CRC-32 check value, computed by the *bit-level spec* and by the table model
+example : Crc32.crc32Bitwise [49, 50, 51, 52, 53, 54, 55, 56, 57] 0 = 0xCBF43926 := by decide +kernel
+example : Crc32.calcCrc32 [49, 50, 51, 52, 53, 54, 55, 56, 57] 0 = 0xCBF43926 := by decide +kernel
+
+/-- Incremental identity in the exact form of the API (`init` is a previous *result*, the
+pre- and post-inversion are inside `calc_crc32`):
+`calc_crc32(a‖b, init) = calc_crc32(b, calc_crc32(a, init))`, in particular for `init = 0`. -/
+theorem crc_incremental (a b : List UInt8) (init : UInt32) :
+    Crc32.calcCrc32 (a ++ b) init = Crc32.calcCrc32 b (Crc32.calcCrc32 a init) := by
+  unfold Crc32.calcCrc32
+  rw [List.foldl_append]
+  congr 2
+  rw [UInt32.xor_assoc]
+  simp
+example : Crc32.calcCrc32 ([49, 50, 51, 52] ++ [53, 54, 55, 56, 57]) 0
+    = Crc32.calcCrc32 [53, 54, 55, 56, 57] (Crc32.calcCrc32 [49, 50, 51, 52] 0) :=
+  crc_incremental _ _ 0
+example : Crc32.calcCrc32 [53, 54, 55, 56, 57] (Crc32.calcCrc32 [49, 50, 51, 52] 0) = 0xCBF43926 := by
+  decide +kernel
+
+/-- the same identity for the specification (so chunked CRC-32/ISO-HDLC is well defined) -/
+theorem crc_bitwise_incremental (a b : List UInt8) :
+    Crc32.crc32Bitwise (a ++ b) 0 = Crc32.crc32Bitwise b (Crc32.crc32Bitwise a 0) := by
+  rw [← crc_eq_bitwise, ← crc_eq_bitwise, ← crc_eq_bitwise, crc_incremental]
+example : Crc32.crc32Bitwise ([1, 2] ++ [3]) 0 = Crc32.crc32Bitwise [3] (Crc32.crc32Bitwise [1, 2] 0) :=
+  crc_bitwise_incremental _ _
+
+/-! ## SipHash-2-4 -/
+
+/-- The fall-through `switch (len & 7)` of siphash.c builds exactly the last word of the
+paper's padding: the remaining `len mod 8` bytes, zero bytes, and the byte `len mod 256`,
+read little-endian. -/
+theorem sip_tail_eq_padding (len : Nat) (s : List UInt8) (h : s.length = len % 8) :
+    SipHash.tail len s = le64 (s ++ zeros (7 - s.length) ++ [UInt8.ofNat (len % 256)]) :=
+  UsualProofs.C16.Sip.tail_eq_padding len s h
+example : SipHash.tail 259 [0xAA, 0xBB, 0xCC] = le64 [0xAA, 0xBB, 0xCC, 0, 0, 0, 0, 3] :=
+  sip_tail_eq_padding 259 [0xAA, 0xBB, 0xCC] (by decide)
+
+/-- `siphash24` = SipHash-2-4 as the paper defines it (pad, split into little-endian words,
+2 compression rounds per word, 4 finalisation rounds), for every message and key.  The round
+function itself is a transcription (pinned by the paper's vectors below and by the C reference). -/
+theorem siphash24_eq_paper (data : List UInt8) (k0 k1 : UInt64) :
+    SipHash.siphash24 data k0 k1 = SipHash.siphash24Spec data k0 k1 :=
+  UsualProofs.C16.Sip.siphash24_eq_spec data k0 k1
+-- test vector: SipHash paper, Appendix A (key 00..0f, message 00..0e), by model and by spec
+example : SipHash.siphash24 [0, 1, 2, 3, 4, 5, 6, 7, 8, 9, 10, 11, 12, 13, 14] 0x0706050403020100 0x0f0e0d0c0b0a0908
+    = 0xa129ca6149be45e5 := by decide +kernel
+example : SipHash.siphash24Spec [0, 1, 2, 3, 4, 5, 6, 7, 8, 9, 10, 11, 12, 13, 14] 0x0706050403020100 0x0f0e0d0c0b0a0908
+    = 0xa129ca6149be45e5 := by decide +kernel
+example : SipHash.siphash24 [] 0x0706050403020100 0x0f0e0d0c0b0a0908 = 0x726fdb47dd0e0e31 := by
+  decide +kernel
+example : SipHash.siphash24 [0, 1, 2, 3, 4, 5, 6, 7] 0x0706050403020100 0x0f0e0d0c0b0a0908
+    = 0x93f5f5799a932462 := by decide +kernel
+
+/-! ## lookup3 -/
+
+/-- libusual copies the last 1..12 bytes into a zeroed 12-byte buffer and adds three words;
+the published `hashlittle2` adds the bytes one by one in a fall-through `switch`.  They agree. -/
+theorem lookup3_tail_eq_padding (s : Lookup3.St) (k : List UInt8) (h1 : 1 ≤ k.length)
+    (h12 : k.length ≤ 12) :
+    Lookup3.specTail k.length s k = Lookup3.addWords s k :=
+  UsualProofs.C16.L3.tail_eq_padding s k h1 h12
+example : Lookup3.specTail 5 (1, 2, 3) [10, 20, 30, 40, 50] = Lookup3.addWords (1, 2, 3) [10, 20, 30, 40, 50] :=
+  lookup3_tail_eq_padding (1, 2, 3) [10, 20, 30, 40, 50] (by decide) (by decide)
+
+/-- `hash_lookup3` = Jenkins' `hashlittle2` with both seeds zero (`*pb` high, `*pc` low), for
+every input.  `mix`/`final` are transcriptions (pinned by the vectors and the C reference). -/
+theorem hash_lookup3_eq_hashlittle2 (data : List UInt8) :
+    Lookup3.hashLookup3 data = Lookup3.hashlittle2Spec data :=
+  UsualProofs.C16.L3.hashLookup3_eq_spec data
+-- test vector: lookup3.c driver5: hashlittle("Four score and seven years ago", 30, 0) = 0x17770551,
+-- hashlittle2 with zero seeds gives c = 17770551, b = ce7226e6; empty input gives deadbeef deadbeef
+example : Lookup3.hashLookup3 [70, 111, 117, 114, 32, 115, 99, 111, 114, 101, 32, 97, 110, 100, 32, 115, 101, 118, 101, 110, 32, 121, 101, 97, 114, 115, 32, 97, 103, 111] = 0xce7226e617770551 := by decide +kernel
+example : Lookup3.hashlittle2Spec [70, 111, 117, 114, 32, 115, 99, 111, 114, 101, 32, 97, 110, 100, 32, 115, 101, 118, 101, 110, 32, 121, 101, 97, 114, 115, 32, 97, 103, 111] = 0xce7226e617770551 := by decide +kernel
+example : Lookup3.hashLookup3 [] = 0xdeadbeefdeadbeef := by decide +kernel
+
+/-! ## XXH32 -/
+
+/-- `xxhash()` = XXH32 as the specification states it: four independent lanes over the words
+`4i+j` of the whole 16-byte stripes, convergence, length, remaining words, remaining bytes,
+avalanche — for every input and seed. -/
+theorem xxh32_eq_spec (data : List UInt8) (seed : UInt32) :
+    XXHash.xxh32 data seed = XXHash.xxh32Spec data seed :=
+  UsualProofs.C16.XXH.xxh32_eq_spec data seed
+-- test vectors: XXH32 of "", "a", "abc", and of the 39-byte sanity string, seed 0
+example : XXHash.xxh32 [] 0 = 0x02CC5D05 := by decide +kernel
+example : XXHash.xxh32 [97] 0 = 0x550D7456 := by decide +kernel
+example : XXHash.xxh32 [97, 98, 99] 0 = 0x32D153FF := by decide +kernel
+example : XXHash.xxh32 [78, 111, 98, 111, 100, 121, 32, 105, 110, 115, 112, 101, 99, 116, 115, 32, 116, 104, 101, 32, 115, 112, 97, 109, 109, 105, 115, 104, 32, 114, 101, 112, 101, 116, 105, 116, 105, 111, 110] 0 = 0xE2293B2F := by decide +kernel
+example : XXHash.xxh32Spec [78, 111, 98, 111, 100, 121, 32, 105, 110, 115, 112, 101, 99, 116, 115, 32, 116, 104, 101, 32, 115, 112, 97, 109, 109, 105, 115, 104, 32, 114, 101, 112, 101, 116, 105, 116, 105, 111, 110] 0 = 0xE2293B2F := by decide +kernel
+
+/-! ## SpookyHash V2 -/
+
+/-- The `switch (remainder)` at the end of `Short` (byte, 32-bit and 64-bit reads mixed, four
+fall-through groups) adds exactly the two little-endian words of the last 1..15 bytes
+zero-padded to 16 bytes; with nothing left it adds `sc_const` twice. -/
+theorem spooky_short_tail_eq_padding (length : Nat) (s : Spooky.S4) (p : List UInt8)
+    (h : p.length ≤ 15) :
+    Spooky.shortTail length p.length s p =
+      if p.length = 0 then
+        { s with h2 := s.h2 + Spooky.sc, h3 := s.h3 + (UInt64.ofNat length <<< 56) + Spooky.sc }
+      else
+        { s with h2 := s.h2 + w64 p 0, h3 := s.h3 + (UInt64.ofNat length <<< 56) + w64 p 1 } :=
+  UsualProofs.C16.Spk.shortTail_eq_padding length s p h
+example : Spooky.shortTail 45 13 ⟨1, 2, 3, 4⟩ [1, 2, 3, 4, 5, 6, 7, 8, 9, 10, 11, 12, 13] =
+    { (⟨1, 2, 3, 4⟩ : Spooky.S4) with
+        h2 := (3 : UInt64) + w64 [1, 2, 3, 4, 5, 6, 7, 8, 9, 10, 11, 12, 13] 0,
+        h3 := (4 : UInt64) + (UInt64.ofNat 45 <<< 56) + w64 [1, 2, 3, 4, 5, 6, 7, 8, 9, 10, 11, 12, 13] 1 } :=
+  spooky_short_tail_eq_padding 45 ⟨1, 2, 3, 4⟩ [1, 2, 3, 4, 5, 6, 7, 8, 9, 10, 11, 12, 13] (by decide)
+
+/-- the last block of the long path is the remainder, zero bytes, and its length in byte 95 -/
+theorem spooky_last_block_eq_padding (rem : List UInt8) (h : rem.length ≤ 95) :
+    Spooky.lastBlock rem = rem ++ zeros (95 - rem.length) ++ [UInt8.ofNat rem.length] :=
+  UsualProofs.C16.Spk.lastBlock_eq_padding rem h
+example : Spooky.lastBlock [7, 8, 9] = [7, 8, 9] ++ zeros 92 ++ [3] :=
+  spooky_last_block_eq_padding [7, 8, 9] (by decide)
+
+/-- What is proved of "spookyhash = SpookyHash V2": below 192 bytes the function equals the
+padded formulation of `Short` (`Spooky.shortSpec`), from 192 bytes on it is the block loop over
+`length / 96` blocks followed by `End` on the padded last block.
+
+Not proved (the full statement would be
+`theorem spooky_eq_published : Spooky.spookyhash data h1 h2 = SpookyV2.hash128 data h1 h2`
+against an independently formulated `SpookyV2.hash128`): that the transcribed mixing functions
+`ShortMix/ShortEnd/Mix/EndPartial` and the constants are the published ones — this rests on the
+transcription, on the 64 published `TestResults` vectors (short path) and on the independent C
+reference with index-formula mixing functions in harness/C16/refs.h (both paths). -/
+theorem spooky_eq_published_partial (data : List UInt8) (h1 h2 : UInt64) :
+    Spooky.spookyhash data h1 h2 =
+      if data.length < 192 then Spooky.shortSpec data h1 h2
+      else
+        let s := Spooky.longLoop (data.length / 96)
+          ⟨h1, h2, Spooky.sc, h1, h2, Spooky.sc, h1, h2, Spooky.sc, h1, h2, Spooky.sc⟩ data
+        let rem := data.drop (96 * (data.length / 96))
+        let s := Spooky.endMix s (rem ++ zeros (95 - rem.length) ++ [UInt8.ofNat (data.length % 96)])
+        (s.h0, s.h1) := by
+  unfold Spooky.spookyhash
+  by_cases h : data.length < 192
+  · simp only [h, if_true]
+    exact UsualProofs.C16.Spk.short_eq_spec data h1 h2
+  · simp only [h, if_false]
+    unfold Spooky.long
+    have hl : (data.drop (96 * (data.length / 96))).length = data.length % 96 := by
+      simp; omega
+    have hm : data.length % 96 ≤ 95 := by omega
+    simp only []
+    rw [UsualProofs.C16.Spk.lastBlock_eq_padding _ (by omega), hl]
+-- test vectors: SpookyV2 TestResults (buf[i] = i+128, Hash32(buf, len, 0) = low half of hash1
+-- with both seeds 0), lengths 0, 3, 31, 63
+example : (Spooky.spookyhash [] 0 0).1.toUInt32 = 0x6bf50919 := by decide +kernel
+example : (Spooky.spookyhash [128, 129, 130] 0 0).1.toUInt32 = 0x35bc5fbf := by decide +kernel
+example : (Spooky.spookyhash [128, 129, 130, 131, 132, 133, 134, 135, 136, 137, 138, 139, 140, 141, 142, 143, 144, 145, 146, 147, 148, 149, 150, 151, 152, 153, 154, 155, 156, 157, 158] 0 0).1.toUInt32 = 0x027bca7c := by decide +kernel
+example : (Spooky.spookyhash [128, 129, 130, 131, 132, 133, 134, 135, 136, 137, 138, 139, 140, 141, 142, 143, 144, 145, 146, 147, 148, 149, 150, 151, 152, 153, 154, 155, 156, 157, 158, 159, 160, 161, 162, 163, 164, 165, 166, 167, 168, 169, 170, 171, 172, 173, 174, 175, 176, 177, 178, 179, 180, 181, 182, 183, 184, 185, 186, 187, 188, 189, 190] 0 0).1.toUInt32 = 0x09c1afb4 := by decide +kernel
+-- non-vacuity of the long branch: a 200-byte input takes it
+example : ¬ (List.replicate 200 (0 : UInt8)).length < 192 := by rw [List.length_replicate]; omega
+
+/-! ## memhash_seed -/
+
+/-- on a host with 64-bit pointers or longs `memhash_seed(data, len, seed)` is the low 32 bits
+of SpookyHash's first word started from `(seed, 0)`; otherwise it is XXH32 with that seed -/
+theorem memhash_seed_def (data : List UInt8) (seed : UInt32) :
+    MemHash.memhashSeed true data seed = (Spooky.spookyhash data seed.toUInt64 0).1.toUInt32 ∧
+    MemHash.memhashSeed false data seed = XXHash.xxh32 data seed := by
+  constructor <;> rfl
+example : MemHash.memhashSeed true [128, 129, 130] 0 = 0x35bc5fbf := by decide +kernel
+
+end UsualProps.C16
